@@ -84,7 +84,8 @@ def rl_decode(enc: bytes) -> bytes:
 
 
 # ---------------------------------------------------------------- LZW (7.4.4, EarlyChange = 1)
-def lzw_encode(data: bytes) -> bytes:
+def lzw_encode(data: bytes, early: int = 1) -> bytes:
+    """early = the /EarlyChange parameter: 1 (default) grows the code width one code early, 0 as late as possible"""
     codes: List[int] = []
     widths: List[int] = []
     table = {bytes((c,)): c for c in range(256)}
@@ -103,7 +104,7 @@ def lzw_encode(data: bytes) -> bytes:
         table[wc] = nxt
         nxt += 1
         # early change: the width grows one code before the table would need it
-        if nxt + 1 > (1 << width) and width < 12:
+        if nxt + early > (1 << width) and width < 12:
             width += 1
         if nxt >= 4094:
             codes.append(256)
@@ -117,7 +118,7 @@ def lzw_encode(data: bytes) -> bytes:
         widths.append(width)
         # the decoder adds an entry after this code as well
         nxt += 1
-        if nxt + 1 > (1 << width) and width < 12:
+        if nxt + early > (1 << width) and width < 12:
             width += 1
     codes.append(257)
     widths.append(width)
@@ -133,12 +134,12 @@ def lzw_encode(data: bytes) -> bytes:
     if nbits:
         out.append((acc << (8 - nbits)) & 255)
     res = bytes(out)
-    assert lzw_decode(res) == data, "LZW reference round trip"
+    assert lzw_decode(res, early) == data, "LZW reference round trip"
     return res
 
 
-def lzw_decode(enc: bytes) -> bytes:
-    """spec-literal decoder (EarlyChange=1)"""
+def lzw_decode(enc: bytes, early: int = 1) -> bytes:
+    """spec-literal decoder; early = /EarlyChange"""
     bits = "".join(f"{b:08b}" for b in enc)
     pos = 0
     width = 9
@@ -172,8 +173,8 @@ def lzw_decode(enc: bytes) -> bytes:
             table.append(entry)
         out += entry
         prev = entry
-        # early change: switch as soon as the table holds 2^width - 1 entries
-        if len(table) >= (1 << width) - 1 and width < 12:
+        # EarlyChange 1: switch as soon as the table holds 2^width - 1 entries; 0: when it holds 2^width
+        if len(table) >= (1 << width) - early and width < 12:
             width += 1
     return bytes(out)
 
@@ -237,6 +238,29 @@ def png_unpredict(enc: bytes, rowbytes: int, bpp: int) -> bytes:
     return bytes(out)
 
 
+def tiff_predict(data: bytes, rowbytes: int, bpp: int) -> bytes:
+    """TIFF 6.0 section 14 horizontal differencing (Predictor 2), 8-bit components: every sample minus the sample of
+    the same component in the pixel to its left"""
+    assert len(data) % rowbytes == 0
+    out = bytearray()
+    for r in range(len(data) // rowbytes):
+        row = data[r * rowbytes : (r + 1) * rowbytes]
+        out += bytes((row[x] - (row[x - bpp] if x >= bpp else 0)) & 255 for x in range(rowbytes))
+    res = bytes(out)
+    assert tiff_unpredict(res, rowbytes, bpp) == data
+    return res
+
+
+def tiff_unpredict(enc: bytes, rowbytes: int, bpp: int) -> bytes:
+    out = bytearray()
+    for r in range(len(enc) // rowbytes):
+        row = bytearray(enc[r * rowbytes : (r + 1) * rowbytes])
+        for x in range(bpp, rowbytes):
+            row[x] = (row[x] + row[x - bpp]) & 255
+        out += row
+    return bytes(out)
+
+
 def selfcheck() -> None:
     samples = [b"", b"\x00", b"\x00\x00\x00\x00", b"abc", bytes(range(256)), b"\xff" * 300, b"ab" * 700, bytes((i * 7) & 255 for i in range(5000))]
     for s in samples:
@@ -247,6 +271,9 @@ def selfcheck() -> None:
         flate_encode(s)
     # known vectors: ISO 32000-1 7.4.4.2 example -- 45 45 45 45 45 65 45 45 45 66 -> 80 0B 60 50 22 0C 0C 85 01
     assert lzw_encode(bytes([45, 45, 45, 45, 45, 65, 45, 45, 45, 66])) == bytes([0x80, 0x0B, 0x60, 0x50, 0x22, 0x0C, 0x0C, 0x85, 0x01])
+    big = bytes((i * i * 31 + i * 7) & 255 for i in range(3000))
+    assert lzw_encode(big, 0) != lzw_encode(big, 1) and lzw_decode(lzw_encode(big, 0), 0) == big
+    assert tiff_predict(bytes([10, 20, 30, 13, 19, 33]), 6, 3) == bytes([10, 20, 30, 3, 255, 3])
     assert a85_encode(b"\x00\x00\x00\x00") == b"z~>"
     assert rl_decode(bytes([2, 1, 2, 3, 254, 9, 128])) == bytes([1, 2, 3, 9, 9, 9])
     for ft in range(5):
